@@ -132,6 +132,10 @@ func rpSpec(ops []rpOp) []byte {
 	obj := map[string]any{"type": "object", "required": []string{"name"}, "properties": map[string]any{"name": map[string]any{"type": "string"}, "n": map[string]any{"type": "integer"}}}
 	paths["/bodyjson"] = map[string]any{"post": map[string]any{"operationId": "bodyJson", "requestBody": body("application/json", obj), "responses": map[string]any{"204": map[string]any{"description": "d"}}}}
 	paths["/bodyform"] = map[string]any{"post": map[string]any{"operationId": "bodyForm", "requestBody": body("application/x-www-form-urlencoded", obj), "responses": map[string]any{"204": map[string]any{"description": "d"}}}}
+	// a form body whose media type carries an encoding object (text/plain for the string member: the string itself)
+	paths["/bodyformenc"] = map[string]any{"post": map[string]any{"operationId": "bodyFormenc", "requestBody": map[string]any{"required": true, "content": map[string]any{
+		"application/x-www-form-urlencoded": map[string]any{"schema": obj, "encoding": map[string]any{"name": map[string]any{"contentType": "text/plain"}, "n": map[string]any{"style": "form"}}}}},
+		"responses": map[string]any{"204": map[string]any{"description": "d"}}}}
 	paths["/bodytext"] = map[string]any{"post": map[string]any{"operationId": "bodyText", "requestBody": body("text/plain", map[string]any{"type": "string"}), "responses": map[string]any{"204": map[string]any{"description": "d"}}}}
 	paths["/bodyvendor"] = map[string]any{"post": map[string]any{"operationId": "bodyVendor", "requestBody": body("application/vnd.api+json", obj), "responses": map[string]any{"204": map[string]any{"description": "d"}}}}
 	b, _ := json.Marshal(map[string]any{"openapi": "3.0.3", "info": map[string]any{"title": "rp", "version": "1"}, "paths": paths})
@@ -312,6 +316,7 @@ func runC13(r *Report, rng *rand.Rand, thorough bool) {
 		{"id": "body/json", "pkg": "c13_p0", "opts": map[string]any{"short_circuit": -1, "strict_short_circuit": -1}, "client": map[string]any{"fn": "NewBodyJsonRequest", "args": []any{map[string]any{"name": "é\"x", "n": 7}}}},
 		{"id": "body/vendor", "pkg": "c13_p0", "opts": map[string]any{"short_circuit": -1, "strict_short_circuit": -1}, "client": map[string]any{"fn": "NewBodyVendorRequestWithApplicationVndAPIPlusJSONBody", "args": []any{map[string]any{"name": "v", "n": -1}}}},
 		{"id": "body/form", "pkg": "c13_p0", "opts": map[string]any{"short_circuit": -1, "strict_short_circuit": -1}, "client": map[string]any{"fn": "NewBodyFormRequestWithFormdataBody", "args": []any{map[string]any{"name": "a b&c", "n": 3}}}},
+		{"id": "body/formenc", "pkg": "c13_p0", "opts": map[string]any{"short_circuit": -1, "strict_short_circuit": -1}, "client": map[string]any{"fn": "NewBodyFormencRequestWithFormdataBody", "args": []any{map[string]any{"name": "a b&c", "n": 3}}}},
 		{"id": "body/text", "pkg": "c13_p0", "opts": map[string]any{"short_circuit": -1, "strict_short_circuit": -1}, "client": map[string]any{"fn": "NewBodyTextRequestWithTextBody", "args": []any{"plain ü text"}}},
 	}
 	scenarios = append(scenarios, bodyScs...)
@@ -410,10 +415,11 @@ func runC13(r *Report, rng *rand.Rand, thorough bool) {
 		}
 		if strings.HasPrefix(id, "body/") {
 			want := map[string][2]string{
-				"body/json":   {"application/json", `{"n":7,"name":"é\"x"}`},
-				"body/vendor": {"application/vnd.api+json", `{"n":-1,"name":"v"}`},
-				"body/form":   {"application/x-www-form-urlencoded", "n=3&name=a+b%26c"},
-				"body/text":   {"text/plain", "plain ü text"},
+				"body/json":    {"application/json", `{"n":7,"name":"é\"x"}`},
+				"body/vendor":  {"application/vnd.api+json", `{"n":-1,"name":"v"}`},
+				"body/form":    {"application/x-www-form-urlencoded", "n=3&name=a+b%26c"},
+				"body/formenc": {"application/x-www-form-urlencoded", "n=3&name=a+b%26c"},
+				"body/text":    {"text/plain", "plain ü text"},
 			}[id]
 			r.Count(id, true)
 			if res == nil || res.Wire == nil {
@@ -570,7 +576,7 @@ func runC13(r *Report, rng *rand.Rand, thorough bool) {
 		}
 	}
 	pcases.WriteTo(r)
-	r.Rule = "operations with 1-4 declared responses over {200, 201, 404, 500, 2XX, 4XX, 5XX, default} x 0-3 media types each from {application/json, vendor +json (3), hal+json, yaml (2), xml (2), unparsable (2), structured-syntax +xml (2)} (two fixed witnesses and common shapes first; a decoy document with the same operation ids and one plain response each is generated before them in the same process; every sixth operation declares free-form schemas), generated client compiled; Parse<Op>Response called on synthesized replies: statuses {200,201,204,299,404,418,500,503} x every declared media type + application/json (+charset) + text/html, and every declared pair answered once with a status only that response matches best (every typed field of the response type must be filled by some declared reply); replies framed with Content-Length or chunked, every other response inspected only after the same function has parsed a later reply, and replies to HEAD requests (announced length, empty body); observed = which typed fields are non-nil, raw body and status; typed request builders (JSON, vendor JSON, form, text) checked for Content-Type and encoding; the typed methods <Op>WithResponse of a client assembled from its options (doer with a canned declared reply, two client editors, one call editor; server URL with and without final slash and path prefix) must send the builder's request to the right path, edited by every editor once in order, and return what Parse<Op>Response makes of the reply; non-trivial = a declared pair is expected with several responses declared"
+	r.Rule = "operations with 1-4 declared responses over {200, 201, 404, 500, 2XX, 4XX, 5XX, default} x 0-3 media types each from {application/json, vendor +json (3), hal+json, yaml (2), xml (2), unparsable (2), structured-syntax +xml (2)} (two fixed witnesses and common shapes first; a decoy document with the same operation ids and one plain response each is generated before them in the same process; every sixth operation declares free-form schemas), generated client compiled; Parse<Op>Response called on synthesized replies: statuses {200,201,204,299,404,418,500,503} x every declared media type + application/json (+charset) + text/html, and every declared pair answered once with a status only that response matches best (every typed field of the response type must be filled by some declared reply); replies framed with Content-Length or chunked, every other response inspected only after the same function has parsed a later reply, and replies to HEAD requests (announced length, empty body); observed = which typed fields are non-nil, raw body and status; typed request builders (JSON, vendor JSON, form, form with an encoding object, text) checked for Content-Type and encoding; the typed methods <Op>WithResponse of a client assembled from its options (doer with a canned declared reply, two client editors, one call editor; server URL with and without final slash and path prefix) must send the builder's request to the right path, edited by every editor once in order, and return what Parse<Op>Response makes of the reply; non-trivial = a declared pair is expected with several responses declared"
 }
 
 // rpRepresentative: a status that the named response matches and no more specific declared response does (0 if none).
